@@ -252,3 +252,19 @@ CHECKS["C18"] = {
     "note": TRUST + " d=1 quick, 2 thorough. Real TCPConnector with a scripted resolver; aiohttp.connector.aiohappyeyeballs.start_connection and create_connection are "
             "rebound to the in-memory wire; the clock never advances while callbacks are queued.",
 }
+
+CHECKS["C02"] = {
+    "engine": "SCHED",
+    "design_ref": "§3 C02, §2.1-2.3",
+    "technique": "deviation-bounded exhaustive schedule exploration of a real ClientSession talking to a real web.Application over the in-memory wire",
+    "text": "About 190 scenarios = request-shape grammar (7 methods; paths with encoded, non-ASCII and reserved characters; repeated / non-ASCII / empty header "
+            "values; cookies; bodies bytes / str / BytesIO / async iterable / JSON / urlencoded and multipart FormData at sizes 0,1,2047,2048,2049,65536,65537; "
+            "chunked; deflate / gzip; Expect: 100-continue; HTTP/1.0; Connection: close; handlers that do not read the body) against a canonical handler, plus "
+            "response-shape grammar (200/201/204/304/404/500; HEAD; Response with bytes / text / JSON / BytesIO / file; StreamResponse with 0-3 writes; chunked; "
+            "compression; explicit length; force_close; custom reason; repeated headers; HTTP/1.0 client) against a canonical request.  Both ends are real; the "
+            "bytes of each direction are delivered whole, up to the head end or next line, 1 byte or 2048 bytes at a time, and every schedule with <= d "
+            "deviations is run.  What the handler saw must equal what was issued, what the caller got must equal what was returned, both ends must agree on "
+            "keep-alive at rest, and a second request on the session must be answered.",
+    "note": TRUST + " d=1 quick, 2 thorough. Repeated field lines are compared in their combined form (the parser's headers mapping joins them); file bodies come "
+            "from scratch temp files without kernel sendfile; handlers that the API refuses (chunked on HTTP/1.0, chunked FileResponse) are not in the grammar.",
+}
